@@ -13,6 +13,7 @@ import SJ.Drv.C08
 import SJ.Drv.C15
 import SJ.Drv.C16
 import SJ.Drv.C04
+import SJ.Drv.Typed
 /-!
 `sjdriver` — reads case lines `op args… => impl-observation` on stdin, runs the Lean model and the
 executable specification on each, prints
@@ -39,6 +40,7 @@ def allHandlers : List (String × Handler) :=
     C15.handlers,
     C16.handlers,
     C04.handlers,
+    Typed.handlers,
   ]
 
 def findHandler (op : String) : Option Handler := (allHandlers.find? (·.1 == op)).map (·.2)
